@@ -15,7 +15,7 @@ generic `SetImpl`.
   * `Lvl.iter`              `set.Set.Values()` of a set-typed value: bucket order, then
                             `sort.SliceStable` by `Less`
   * `ctyRules`              `setRules{ety}` as a `Rules Payload`
-  * `setVal`, `ValueSet.*`  `cty.SetVal`, `cty.ValueSet` methods
+  * `mkSetVal`, `ValueSet.*`  `cty.SetVal`, `cty.ValueSet` methods
 
 `appendSetHashBytes` and `RawEquals` recurse structurally except at a set-typed
 value, where they iterate the set in `Less` order — and `Less` itself calls
@@ -373,11 +373,11 @@ def hash (v : Value) : Res Int :=
   | .panic w => .panic w
   | .unmodelled => .unmodelled
 
-def rawEqualsP (ta : Ty) (a : Payload) (tb : Ty) (b : Payload) : Res Bool :=
+def rawEqP (ta : Ty) (a : Payload) (tb : Ty) (b : Payload) : Res Bool :=
   (lvl (max a.depth b.depth + 1)).raw ta a tb b
 
 /-- `Value.RawEquals` -/
-def rawEquals (a b : Value) : Res Bool := rawEqualsP a.ty a.v b.ty b.v
+def rawEq (a b : Value) : Res Bool := rawEqP a.ty a.v b.ty b.v
 
 /-- the level at which members of depth ≤ `d` are handled completely -/
 def memberLvl (d : Nat) : Lvl := lvl (d + 1)
@@ -448,7 +448,7 @@ def marksOfAll : List Value → List String
   | v :: vs => unionMarks v.marksDeep (marksOfAll vs)
 
 /-- `cty.SetVal(vals)` -/
-def setVal (vals : List Value) : Res Value :=
+def mkSetVal (vals : List Value) : Res Value :=
   if vals.isEmpty then .panic "must not call SetVal with empty slice"
   else
     match setValElemTy .dyn vals with
